@@ -66,11 +66,22 @@ Fixpoint efi_run (fuel : nat) (p : profile) (m : mem) (it : efi_iter) : list str
       end
   end.
 
+(* nth(k) on a fresh iterator for k around the number of entries, and count() *)
+Definition nth_ks (n : N) : list N := [0; 1; n - 1; n; n + 1].
+Definition lines_efi_nth (p : profile) (m : mem) (i : efi_iter) : list string :=
+  (map (fun k => line "efi_nth" (sN k ++ " " ++
+                  match efi_nth p m i (N.to_nat k) with
+                  | Val (Some off, it') => "VAL " ++ sView off 40 ++ " len=" ++ sRes sN (efi_len p it')
+                  | Val (None, it') => "VAL none len=" ++ sRes sN (efi_len p it')
+                  | r => sRes (fun _ => "") r
+                  end)) (nth_ks (ei_entries i))
+   ++ [line "efi_count" (let '(l, e) := efi_collect (S (S (N.to_nat (ei_entries i)))) p m i in sRes (fun _ => sN (len l)) e)])%list.
+
 Definition lines_efi (p : profile) (m : mem) (t : tref) : list string :=
   let it := efi_memory_areas m t in
   line "efi_mmap" ("areas=" ++ sRes (fun i => "entries=" ++ sN (ei_entries i) ++ " len=" ++ sRes sN (efi_len p i)) it)
   :: match it with
-     | Val i => efi_run (S (S (N.to_nat (ei_entries i)))) p m i
+     | Val i => (efi_run (S (S (N.to_nat (ei_entries i)))) p m i ++ lines_efi_nth p m i)%list
      | _ => []
      end.
 
@@ -92,12 +103,25 @@ Fixpoint elf_run (fuel : nat) (p : profile) (m : mem) (it : elf_iter) : list str
       end
   end.
 
+(* nth(k) on a fresh iterator for k around the stored entry count (only when that many steps are cheap: the stored
+   count is not bounded by the tag when the entry size is 0), and count() *)
+Definition lines_elf_nth (p : profile) (m : mem) (i : elf_iter) : list string :=
+  if el_rem i <=? 4096 then
+    (map (fun k => line "elf_nth" (sN k ++ " " ++
+                    match elf_nth p m i (N.to_nat k) with
+                    | Val (Some s, it') => "VAL " ++ sN (es_inner s) ++ " rem=" ++ sN (el_rem it')
+                    | Val (None, it') => "VAL none rem=" ++ sN (el_rem it')
+                    | r => sRes (fun _ => "") r
+                    end)) (nth_ks (el_rem i))
+     ++ [line "elf_count" (let '(l, e) := elf_collect (S (elf_fuel i)) p m i in sRes (fun _ => sN (len l)) e)])%list
+  else [].
+
 Definition lines_elf (p : profile) (m : mem) (t : tref) : list string :=
   let it := elf_sections p m t in
   line "elf" (fields KElfSections m t ["number_of_sections"; "entry_size"; "shndx"]
               ++ " sections=" ++ sRes (fun i => "rem=" ++ sN (el_rem i)) it)
   :: match it with
-     | Val i => elf_run (S (elf_fuel i)) p m i
+     | Val i => (elf_run (S (elf_fuel i)) p m i ++ lines_elf_nth p m i)%list
      | _ => []
      end.
 
@@ -232,3 +256,7 @@ Definition run_elfname (p : profile) (bs : list byte) (eb : N) (ebs : list byte)
        end)%list
   | _ => lines
   end.
+
+(* pstr <bytes>: the public parse_slice_as_string on an arbitrary slice *)
+Definition run_pstr (bs : list byte) : list string :=
+  [ line "pstr" (sRes (fun n => sView 0 n ++ " " ++ sBytes (slice bs 0 n)) (parse_str bs)) ].
